@@ -146,6 +146,11 @@ def tasks(tier, seed):
         for r in est_rn:
             t.append(dict(part='estimate', skeleton=sk, renaming=list(r), tier=tier))
     t.append(dict(part='duplicates'))
+    # histories of partial dictionaries on ONE expression object that keeps its id manager
+    hist_rn = [rn[0], rn[59], rn[23]] if tier == 'quick' else rn[::4]
+    for sk in SKELETONS:
+        for r in hist_rn:
+            t.append(dict(part='history', skeleton=sk, renaming=list(r), tier=tier))
     return t
 
 
@@ -159,6 +164,8 @@ def run_task(task):
         _estimate(task, rec)
     elif task['part'] == 'duplicates':
         _duplicates(rec)
+    elif task['part'] == 'history':
+        _history(task, rec)
     return rec.result()
 
 
@@ -241,6 +248,65 @@ def _diff_one(sk, r, tier, rec):
                 if not all(close(a, w) for a, w in zip(got, want)):
                     bad('partial-dictionary-overrides-wrong-parameters', f'betas={dct}: {got} expected {want}', mask=mask)
     rec.sample(dict(skeleton=sk, renaming=mapping))
+
+
+def _history(task, rec):
+    """All sequences (depth 2; thorough 3) of partial name->value dictionaries evaluated on one expression object
+    whose id manager persists between calls (prepare_ids=False), through three holders: a prepared stand-alone
+    expression, the log likelihood owned by a BIOGEME object, and create_function followed by dictionaries.
+    Every evaluation must be history-free: named free parameters take the dictionary value, all others their own
+    initial value, fixed ones keep theirs."""
+    import numpy as np
+    from vf.engine import make_db, make_biogeme
+    sk, r, tier = task['skeleton'], tuple(task['renaming']), task['tier']
+    mapping = dict(zip(['p0', 'p1', 'p2'], r))
+    canonical = SKELETONS[sk][0]
+    depth = 2 if tier == 'quick' else 3
+    for statuses in (('free', 'free', 'free'), ('free', 'fixed', 'bounded')):
+        st = dict(zip(['p0', 'p1', 'p2'], statuses))
+        spec = spec_for(mapping, statuses)
+
+        def ref(mask, shift):
+            named = [o for i, o in enumerate(['p0', 'p1', 'p2']) if mask >> i & 1]
+            pr = {o: (ORIG[o] if (st[o] == 'fixed' or o not in named) else POINT[o] + shift) for o in ORIG}
+            return ref_values(canonical, pr)
+
+        def dct(mask, shift):
+            return {mapping[o]: POINT[o] + shift for i, o in enumerate(['p0', 'p1', 'p2']) if mask >> i & 1}
+
+        for holder in ('prepared', 'biogeme', 'after_function'):
+            for seq in itertools.product(range(8), repeat=depth):
+                db = make_db(ROWS, COLS)
+                expr = R.Builder(spec).build(rename(SKELETONS[sk][-1], mapping))
+                case = dict(part='history', skeleton=sk, renaming=list(r), tier=tier)
+                try:
+                    if holder == 'prepared':
+                        expr.prepare(db, 10)
+                    elif holder == 'biogeme':
+                        b = make_biogeme(db, expr)
+                        b.calculate_likelihood(np.array([0.1 * (i + 1) for i in range(len(b.free_beta_names))]), scaled=False)
+                    else:
+                        f = expr.create_function(database=db, number_of_draws=10, gradient=False, hessian=False, bhhh=False)
+                        f(np.array([0.3 * (i + 1) for i in range(len(expr.id_manager.free_betas_values))]))
+                    bad_at = None
+                    for step, mask in enumerate(seq):
+                        shift = 0.125 * (step + 1)
+                        got = [float(v) for v in expr.get_value_c(database=db, betas=dct(mask, shift), prepare_ids=False)]
+                        want = ref(mask, shift)
+                        if not all(close(a, w) for a, w in zip(got, want)):
+                            bad_at = (step, mask, got, want)
+                            break
+                except Exception as e:
+                    rec.case(('hist', sk, r, statuses, holder, seq), ('raised', type(e).__name__), outcome='raised')
+                    rec.violation(f'C03|history-raised-{type(e).__name__}|{holder}:{sk}', f'{type(e).__name__}: {str(e)[:200]} seq={seq}', case)
+                    continue
+                rec.case(('hist', sk, r, statuses, holder, seq), (sk, r, statuses, holder, seq, bad_at is None), outcome=(holder, bad_at is None))
+                if bad_at:
+                    step, mask, got, want = bad_at
+                    rec.violation(f'C03|dictionary-evaluation-depends-on-earlier-evaluations|{holder}',
+                                  f'{holder} expression of {sk}, sequence of dictionaries (masks) {seq}: step {step} with {dct(mask, 0.125 * (step + 1))} gave {got}, '
+                                  f'expected {want} [renaming {mapping}, statuses {st}]', case, expected=want, observed=got)
+    rec.sample(dict(part='history', skeleton=sk, renaming=mapping, depth=depth))
 
 
 def newton(term, free, fixedvals, start, iters=60):
@@ -411,6 +477,8 @@ def replay(case):
         _diff_one(case['skeleton'], tuple(case['renaming']), case['tier'], rec)
     elif case['part'] == 'estimate':
         _estimate(case, rec)
+    elif case['part'] == 'history':
+        _history(case, rec)
     else:
         _duplicates(rec)
     return rec.violations
